@@ -219,15 +219,24 @@ def wl_datetimes(ctx, rng, i):
         if form != "date" and ctx.counters.get("evaluations", 0) % 7 == 0:
             try:
                 import stix2
-                md = stix2.v20.MarkingDefinition(definition_type="statement", definition={"statement": "s"}, created=x)
-                first = md.serialize()
-                second = stix2.parse(first, version="2.0").serialize()
-                ctx.ev()
-                ctx.count("object_fixed_points")
-                if first != second:
-                    ctx.violation("fixed-point", "2.0 marking-definition built with created=%r writes %s, and after reading back %s" % (
-                        x, first[first.find('"created"'):first.find('"created"') + 45], second[second.find('"created"'):second.find('"created"') + 45]),
-                        {"input": repr(x), "first": first, "second": second, "route": "v20.MarkingDefinition"})
+                # the value as it is, as the library's own timestamp object carrying any precision metadata (taken from another
+                # object's property, from get_timestamp(), from parse_into_datetime()), as text, or left to the clock (None / [] = absent)
+                xm = with_metadata(rng, x)
+                for label, cv in (("datetime", x), ("stixdatetime[%s/%s]" % (xm.precision.name.lower(), xm.precision_constraint.name.lower()), xm),
+                                  ("text", ts.format_us(x_us, "any")), ("absent:" + rng.choice(["None", "[]"]), None)):
+                    if label.startswith("absent:"):
+                        cv = None if label.endswith("None") else []
+                    md = stix2.v20.MarkingDefinition(definition_type="statement", definition={"statement": "s"}, created=cv)
+                    first = md.serialize()
+                    second = stix2.parse(first, version="2.0").serialize()
+                    ctx.ev()
+                    ctx.count("object_fixed_points")
+                    ctx.see("2.0 statement marking created given as", label.split(":")[0].split("[")[0])
+                    if first != second:
+                        ctx.violation("fixed-point", "2.0 marking-definition built with created=%r (%s) writes %s, and after reading back %s" % (
+                            cv, label, first[first.find('"created"'):first.find('"created"') + 45], second[second.find('"created"'):second.find('"created"') + 45]),
+                            {"input": repr(cv), "given_as": label, "first": first, "second": second, "route": "v20.MarkingDefinition"})
+                        break
             except Exception as e:
                 if not isinstance(e, ValueError):
                     ctx.violation("raised-on-valid-input", "2.0 marking-definition with created=%r raised %s" % (x, type(e).__name__), {"input": repr(x), "exception": repr(e)})
